@@ -59,3 +59,55 @@ Theorem C15_canonical_tree_is_unique :
     erase n1 = erase n2 /\ display n1 = display n2.
 Proof. intros n1 n2 G1 G2 H. split; [apply canonical_unique|apply same_routes_same_display]; assumption. Qed.
 Print Assumptions C15_canonical_tree_is_unique.
+
+(* ---- "Display lists exactly the live routes" ---- *)
+(* [spell lab n acc]: for every node with data (the nodes Display marks [*]), the concatenation of the labels
+   from the root down to it.  raw_label: literal keys as stored, parameter keys as Display prints them. *)
+From WF Require Import Model.Parser Proofs.RoutesP Proofs.RouterRoutesP Proofs.RegistryP Proofs.ReachOpsP Proofs.SpellP.
+Print spell.
+Print raw_label.
+Print render_atom.
+Print spelled.
+
+(* the labels spell exactly the stored routes, each once, in Display order ... *)
+Theorem C15_labels_spell_exactly_the_stored_routes :
+  forall b (ops : list op),
+    spell raw_label (r_root (run b ops)) [] = map (spelled []) (routes_of (r_root (run b ops)))
+    /\ NoDup (map fst (routes_of (r_root (run b ops)))).
+Proof.
+  intros b ops. split; [apply reach_spell_raw|]. apply routes_nodup. destruct (reachable_inv b ops) as [W _]. exact W.
+Qed.
+Print Assumptions C15_labels_spell_exactly_the_stored_routes.
+
+(* ... and the stored routes are exactly the expansions of the live templates (Print tinfo: which expansion's
+   info a route carries when a template lists it twice) *)
+Theorem C15_stored_routes_are_the_live_expansions :
+  forall b (ops : list op) r0 i,
+    In (r0, i) (routes_of (r_root (run b ops))) <->
+    exists t d es, In (t, d) (live_of b ops) /\ parse t = Ret es /\ tinfo t d es r0 = Some i.
+Proof. intros b ops r0 i. apply (abs_exact _ _ (reach_abs b ops)). Qed.
+Print Assumptions C15_stored_routes_are_the_live_expansions.
+
+(* the rendering of an expansion's route: literal parts verbatim (unescaped by the parser), parameters in braces *)
+Theorem C15_rendering_of_an_expansion :
+  forall e : expansion, render_route (exp_route e) = concat (map render_part (snd e)).
+Proof. intros e. apply render_atoms_of. Qed.
+Print Assumptions C15_rendering_of_an_expansion.
+
+(* the PRINTED labels (each literal key decoded on its own by from_utf8_lossy) spell the same, provided every
+   literal key is valid UTF-8 on its own ... *)
+Theorem C15_printed_labels_spell_the_routes_partial :
+  forall b (ops : list op),
+    keys_utf8 (r_root (run b ops)) = true ->
+    spell node_label (r_root (run b ops)) [] = map (spelled []) (routes_of (r_root (run b ops))).
+Proof. exact reach_spell_printed. Qed.
+Print Assumptions C15_printed_labels_spell_the_routes_partial.
+
+(* ... and NOT in general: literal siblings that part inside a multi-byte character ("/é", "/ê") are printed with
+   U+FFFD in place of the split character.  Known finding K2. *)
+Theorem C15_printed_labels_refuted :
+  let r := run [] [OInsert T_E_ACUTE 1; OInsert T_E_CIRC 2] in
+  map fst (spell raw_label (r_root r) []) = [T_E_ACUTE; T_E_CIRC]
+  /\ map fst (spell node_label (r_root r) []) = [[47; 239; 191; 189; 239; 191; 189]; [47; 239; 191; 189; 239; 191; 189]]%N.
+Proof. exact printed_labels_refuted. Qed.
+Print Assumptions C15_printed_labels_refuted.
